@@ -91,6 +91,8 @@ def seeds():
         fr = m.get("first_run", "")
         note = " [first run: missed; strengthened]" if fr.startswith("missed by the check of its own") else (
                " [C01 misses it by design]" if fr.startswith("missed by C01") else (" [builder was told first]" if fr.startswith("the builder") else ""))
+        if m.get("neutralised"):
+            note += " [no longer property-breaking on the repaired tree]"
         out.append(f"| {os.path.basename(d)} | {m['property']} | {status}{note} | `{esc(key)}` | {esc(need)} |")
     return "\n".join(out)
 
